@@ -12,9 +12,13 @@
       (operand parsed with `prefix_binding_power() = 19`), EOF error, "unexpected token" error.
     * `parse_paren_expr`: `()` = empty tuple, otherwise `parse_expr` then `expect(RParen)`.
     * `parse_expr` (free function): whole input must be consumed.
-  The statement parser (`parser.rs`) carries a textual copy of the same Pratt loop and tables
-  WITHOUT the depth counter; `parseBpN` with `maxDepth := none`‑like behaviour is obtained by
-  passing a limit larger than the token count (see `parseNoLimit`).
+  The statement parser (`parser.rs`) carries a textual copy of the same Pratt loop and tables.
+  Since /repo 59c7cb56 that copy has the same counter (`Parser::parse_expr_bp`: `self.depth += 1;
+  if self.depth > MAX_DEPTH → TooDeep @ current`, decremented on every exit — functionally the
+  same as passing the depth down), so `parse` models BOTH parsers.  Before that commit the copy
+  had no counter; that old code is `parseNoLimit` (`parseBpN` with a limit larger than the token
+  count, which `Props.parseNoLimit_never_too_deep_witness` shows is never reached) and is kept
+  only for the regression witnesses.
 
   What is NOT modelled (opaque): every primary that is not one of the above — literals,
   identifiers, calls `f(..)`, `CASE..END`, arrays `[..]`, `CAST`, and every *postfix* form
@@ -183,10 +187,12 @@ def finish : PRes → Except PErr Expr
 def parseWith (fuel : Nat) (ts : List Tok) : Except PErr Expr :=
   finish (parseBpN MAX_DEPTH fuel 0 0 ts)
 
-/-- `neumann_parser::parse_expr` on a token list -/
+/-- `neumann_parser::parse_expr` on a token list; also the expression loop of the statement parser
+    (`Parser::parse_expr` in `parser.rs`, entered with `depth = 0` from a top-level clause) -/
 def parse (ts : List Tok) : Except PErr Expr := parseWith (fuelFor ts) ts
 
-/-- the same Pratt loop as embedded in `parser.rs` (statement parser): no depth counter -/
+/-- PRE-FIX code (before /repo 59c7cb56): the Pratt loop embedded in `parser.rs` had no depth
+    counter.  Not a model of the current tree. -/
 def parseNoLimit (ts : List Tok) : Except PErr Expr :=
   finish (parseBpN (ts.length + 2) (fuelFor ts) 0 0 ts)
 
